@@ -3,6 +3,9 @@ import AquaVerif.Drv.RainPartition
 import AquaVerif.Drv.RootZone
 import AquaVerif.Drv.WaterStress
 import AquaVerif.Drv.Drainage
+import AquaVerif.Drv.Germination
+import AquaVerif.Drv.RootDevelopment
+import AquaVerif.Drv.CanopyCover
 import AquaVerif.Drv.Response
 import AquaVerif.Drv.Transpiration
 import AquaVerif.Drv.SoilBuild
@@ -48,6 +51,9 @@ def handlers : List (String × Handler) := [
   ("cc_required_time", hCcRequiredTime),
   ("fco2_init", hFco2Init),
   ("fco2_reset", hFco2Reset),
+  ("canopy_cover", hCanopyCover),
+  ("root_development", hRootDevelopment),
+  ("germination", hGermination),
   ("clock", hClock),
   ("clock_calls", hClockCalls),
   ("calendar", hCalendar),
